@@ -731,3 +731,6 @@ PROPS["C20"]["rule"] += " Every task is run exactly once."
 PROPS["C04"]["rule"] += " Sysctl part (300 / 20 000 cases): the real NewState().IPv6Forwarding over a real file that is rewritten in place between reads, half of the time with its timestamps unchanged (as when the kernel flips the value through conf/all): every read reports what the file holds."
 
 PROPS["C20"]["rule"] += " Whole-process part: the shutdown announcement must name the signal that was sent."
+
+PROPS["C12"]["rule"] += " Log lines are matched by what they name (the field - a label value of the counter - and the prefix or route), not by their wording."
+PROPS["C04"]["rule"] += " The misconfiguration log line is recognised by its subject (a line that speaks of forwarding and reports no read failure), not by its wording."
